@@ -12,6 +12,10 @@ package lang
 //@   opaque reprOfValue
 //@   ensures [nil-is-empty] v == nil ==> result == "" && calls(reprOfValue) == 0
 //@   ensures [stringer-speaks-for-itself] calls(String) == 1 ==> result == ret(String) && calls(reprOfValue) == 0
+// ... unless it is a nil pointer: its String method (a value-receiver method of the pointed-to type, as for
+// *time.Time) would dereference nil - the key is rendered like fmt renders it instead
+//@   replay lang_repr_nil_stringer
+//@   ensures [string-never-called-through-a-nil-pointer] calls(String) >= 1 ==> calls(Kind) >= 1 && !(ret(Kind, 0, 1) == 22 && calls(IsNil) >= 1 && ret(IsNil, 0, 1))
 //@   ensures [plain-values-by-their-own-value] v != nil && calls(String) == 0 && (typeis(v, string) || typeis(v, int) || typeis(v, int64) || typeis(v, uint64) || typeis(v, bool) || typeis(v, float64)) ==> calls(reprOfValue) == 1 && arg(reprOfValue, 0) == ret(reflect.ValueOf) && result == ret(reprOfValue) && calls(Elem) == 0
 //@ func reprOfValue
 //@   prop C13
